@@ -124,7 +124,15 @@ func (s *c15) Gen(r *kit.Rng) (kit.Op, bool) {
 		case 1:
 			return kit.Op{K: "parse", H: pick()}, true
 		case 2:
-			return kit.Op{K: "newext", H: pick()}, true
+			// sometimes at the depth limit, so that the refusal to derive is reached
+			d := int64(-1)
+			if r.Chance(1, 4) {
+				d = int64([]int{254, 255}[r.Intn(2)])
+			}
+			if r.Chance(1, 3) {
+				return kit.Op{K: "parse_model", H: pick()}, true
+			}
+			return kit.Op{K: "newext", H: pick(), N: []int64{d}}, true
 		case 3:
 			idx := []uint32{0, 1, 2, 1<<31 - 1, 1 << 31, 1<<31 + 1, 0xffffffff, r.U32(), uint32(r.Intn(5))}[r.Intn(9)]
 			return kit.Op{K: "child", H: pick(), N: []int64{int64(idx)}}, true
@@ -240,8 +248,27 @@ func (s *c15) Apply(o kit.Op) *kit.Violation {
 		}
 		m := h.mod
 		// fresh copies of every field: any sharing afterwards is the library's doing
-		rk := hdkeychain.NewExtendedKey(append([]byte(nil), m.Version[:]...), append([]byte(nil), m.Key...), append([]byte(nil), m.ChainCode[:]...), append([]byte(nil), m.ParentFP[:]...), m.Depth, m.ChildNum, m.Private)
-		s.add(rk, m.Clone(), "field-copy", o.H)
+		nm := m.Clone()
+		if len(o.N) > 0 && o.Arg(0) >= 0 && o.Arg(0) <= 255 {
+			nm.Depth = uint8(o.Arg(0))
+			if nm.Depth == 255 {
+				s.st.Probe("key-at-depth-255")
+			}
+		}
+		rk := hdkeychain.NewExtendedKey(append([]byte(nil), nm.Version[:]...), append([]byte(nil), nm.Key...), append([]byte(nil), nm.ChainCode[:]...), append([]byte(nil), nm.ParentFP[:]...), nm.Depth, nm.ChildNum, nm.Private)
+		s.add(rk, nm, "field-copy", o.H)
+	case "parse_model":
+		// parse the MODEL's serialisation of a live key: an independent
+		// source for NewKeyFromString
+		if !needLive() || len(s.hs) >= 12 {
+			return nil
+		}
+		rk, err := hdkeychain.NewKeyFromString(h.mod.String())
+		if err != nil {
+			return kit.V("model-mismatch:NewKeyFromString", "the BIP32 model's serialisation %q of a live key does not parse: %v", h.mod.String(), err)
+		}
+		s.st.Probe("parsed-from-model-string")
+		s.add(rk, h.mod.Clone(), "parsed-copy", o.H)
 	case "child":
 		if !needLive() || len(s.hs) >= 12 {
 			return nil
@@ -259,6 +286,8 @@ func (s *c15) Apply(o kit.Op) *kit.Violation {
 			}
 		} else if merr == model.ErrModelHardenedFromPublic {
 			s.st.Probe("hardened-from-public-refused")
+		} else if merr == model.ErrModelDepth {
+			s.st.Probe("derivation-beyond-depth-255-refused")
 		}
 	case "neuter":
 		if !needLive() || len(s.hs) >= 12 {
